@@ -21,6 +21,7 @@ import (
 	"fmt"
 	"io"
 	"math"
+	"sort"
 	"strconv"
 
 	"seehuhn.de/go/postscript/psenc"
@@ -666,7 +667,19 @@ func bForall(intp *Interpreter) error {
 		}
 	case Dict:
 		intp.Stack = intp.Stack[:len(intp.Stack)-2]
-		for key, val := range obj {
+		// The entries are visited in the order of their keys, so that the
+		// result does not depend on Go's map iteration order.  Entries
+		// removed by the procedure are skipped, new ones are not visited.
+		keys := make([]Name, 0, len(obj))
+		for key := range obj {
+			keys = append(keys, key)
+		}
+		sort.Slice(keys, func(i, j int) bool { return keys[i] < keys[j] })
+		for _, key := range keys {
+			val, ok := obj[key]
+			if !ok {
+				continue
+			}
 			intp.Stack = append(intp.Stack, key, val)
 			err := intp.executeOne(proc, true)
 			if err == errExit {
